@@ -103,16 +103,27 @@ def const_fraction(node, src=None):
     return None
 
 
+class Raised(Exception):
+    """a Python exception raised by a modelled builtin on concrete text (int('1.5') ...)"""
+
+    def __init__(self, name):
+        super().__init__(name)
+        self.name = name
+
+
 _FLIP = {ast.Lt: ast.Gt, ast.Gt: ast.Lt, ast.LtE: ast.GtE, ast.GtE: ast.LtE, ast.Eq: ast.Eq, ast.NotEq: ast.NotEq}
 MAX_STATES = 4000
 
 
 class Engine:
-    def __init__(self, ctx, rel, fn, param=None, cond=None, call=None, cmp=None, length=None, env=None, follow=True):
+    def __init__(self, ctx, rel, fn, param=None, cond=None, call=None, cmp=None, length=None, env=None, follow=True, post=None, lenient=False, exceptions=False):
         self.ctx, self.rel, self.fn = ctx, rel, fn
         self.mod = ctx.src.mod(rel)
         self.param = param
         self.cond_hook, self.call_hook, self.cmp_hook, self.len_hook = cond, call, cmp, length
+        self.post_hook = post
+        self.lenient = lenient
+        self.exceptions = exceptions
         self.env0 = dict(env or {})
         self.follow = follow
         self._modconst = {}
@@ -135,6 +146,8 @@ class Engine:
                 leaves.append(Leaf(s, "return", pay[0], pay[1]))
             elif out == "raise":
                 leaves.append(Leaf(s, "raise", None, pay))
+            elif out == "exc":
+                leaves.append(Leaf(s, "raise", Lit(pay), self.fn))
             else:
                 leaves.append(Leaf(s, "fall" if out == "next" else out, Const(None), self.fn))
         return leaves
@@ -146,7 +159,12 @@ class Engine:
         for s in stmts:
             nxt = []
             for c in cur:
-                for st2, out, pay in self.stmt(s, c):
+                try:
+                    res = self.stmt(s, c)
+                except Raised as r:
+                    done.append((c, "exc", r.name))
+                    continue
+                for st2, out, pay in res:
                     if out == "next":
                         nxt.append(st2)
                     else:
@@ -210,6 +228,22 @@ class Engine:
         if isinstance(s, ast.Try):
             out = []
             for st2, o, pay in self.block(s.body, st):
+                if o == "exc":
+                    h = None
+                    for hd in s.handlers:
+                        names = [] if hd.type is None else [dotted(t) for t in (hd.type.elts if isinstance(hd.type, ast.Tuple) else [hd.type])]
+                        if hd.type is None or pay in names or "Exception" in names:
+                            h = hd
+                            break
+                    if h is None:
+                        out.append((st2, o, pay))
+                    else:
+                        for st3, o3, p3 in self.block(h.body, st2):
+                            if o3 == "next":
+                                out.extend(self.block(s.finalbody, st3))
+                            else:
+                                out.append((st3, o3, p3))
+                    continue
                 if o == "next":
                     for st3, o3, p3 in self.block(s.orelse, st2):
                         if o3 == "next":
@@ -221,11 +255,19 @@ class Engine:
             return out
         if isinstance(s, ast.For):
             return self.for_loop(s, st)
+        if isinstance(s, ast.While):
+            return self.while_loop(s, st)
         raise Unsupported(f"statement {type(s).__name__} at line {getattr(s, 'lineno', '?')}")
 
     def for_loop(self, s, st):
         it = self.ev(s.iter, st)
         if not isinstance(it, Tup):
+            if self.lenient:
+                # a loop that is not the rule's business: what it assigns is unknown afterwards
+                for n in ast.walk(s):
+                    if isinstance(n, ast.Name) and isinstance(n.ctx, ast.Store):
+                        st.env[n.id] = Unk("assigned in a loop")
+                return [(st, "next", None)]
             raise Unsupported(f"loop over a non-literal sequence: {ast.unparse(s.iter)}")
         live = [st]
         done = []
@@ -249,6 +291,31 @@ class Engine:
             out.extend(self.block(s.orelse, c))
         out.extend((c, "next", None) for c in broke)
         return out
+
+    def while_loop(self, s, st, bound=400):
+        """a loop whose test is decided at every iteration (concrete counters, scripted iterators)"""
+        live = [st]
+        out = []
+        for _ in range(bound):
+            nxt = []
+            for c in live:
+                for truth, c2 in self.decide(s.test, c):
+                    if c2.facts != c.facts:
+                        raise Unsupported(f"loop test not decided: {ast.unparse(s.test)}")
+                    if not truth:
+                        out.extend(self.block(s.orelse, c2))
+                        continue
+                    for st2, o, pay in self.block(s.body, c2):
+                        if o in ("next", "continue"):
+                            nxt.append(st2)
+                        elif o == "break":
+                            out.append((st2, "next", None))
+                        else:
+                            out.append((st2, o, pay))
+            live = nxt
+            if not live:
+                return out
+        raise Unsupported("loop does not terminate within the bound")
 
     def assign(self, t, v, st):
         if isinstance(t, ast.Name):
@@ -319,6 +386,15 @@ class Engine:
                 return [(bool(r), st)]
         if is_num(a) and is_num(b):
             return [(_num_cmp(op, a, b), st)]
+        if isinstance(op, (ast.Is, ast.IsNot, ast.Eq, ast.NotEq)) and (a == Const(None) or b == Const(None)):
+            other = b if a == Const(None) else a
+            same = None
+            if other == Const(None):
+                same = True
+            elif is_num(other) or is_str(other) or isinstance(other, (Tup, Param)) or (isinstance(other, Opaque) and other.name == "field"):
+                same = False
+            if same is not None:
+                return [(same == isinstance(op, (ast.Is, ast.Eq)), st)]
         if isinstance(a, Lit) and isinstance(b, Lit) and isinstance(op, (ast.Eq, ast.NotEq)):
             return [((a.s == b.s) == isinstance(op, ast.Eq), st)]
         if isinstance(a, Lit) and isinstance(b, Lit) and isinstance(op, (ast.In, ast.NotIn)):
@@ -464,9 +540,11 @@ class Engine:
                 return self._ev(node.orelse, st)
             return Choice(ast.unparse(node.test), self._ev(node.body, st), self._ev(node.orelse, st))
         if isinstance(node, ast.Subscript):
-            return self.subscript(node, st)
+            r = self.subscript(node, st)
+            return self.post_hook(r, st, self) if self.post_hook is not None else r
         if isinstance(node, ast.Call):
-            return self.call(node, st)
+            r = self.call(node, st)
+            return self.post_hook(r, st, self) if self.post_hook is not None else r
         if isinstance(node, ast.Attribute):
             d = dotted(node)
             return Opaque("name:" + (d or ast.unparse(node)), ())
@@ -478,6 +556,27 @@ class Engine:
             return Opaque("test", (Lit(ast.unparse(node)),))
         if isinstance(node, ast.Starred):
             return Unk("starred")
+        if isinstance(node, (ast.ListComp, ast.GeneratorExp)) and len(node.generators) == 1 and not node.generators[0].is_async:
+            g = node.generators[0]
+            it = self._ev(g.iter, st)
+            if not isinstance(it, Tup):
+                return Unk("comprehension over a non-literal sequence")
+            items = []
+            inner = st.fork()
+            for item in it.items:
+                self.assign(g.target, item, inner)
+                keep = True
+                for c in g.ifs:
+                    r = self.decide(c, inner.fork())
+                    truths = {t for t, _ in r}
+                    if len(truths) != 1:
+                        return Unk(f"undecided filter {ast.unparse(c)}")
+                    if not truths.pop():
+                        keep = False
+                        break
+                if keep:
+                    items.append(self._ev(node.elt, inner))
+            return Tup(tuple(items))
         return Unk(f"expression {type(node).__name__}")
 
     def fstring(self, node, st):
@@ -610,6 +709,21 @@ class Engine:
             r = self.call_hook(name, args, kw, node, st, self)
             if r is not NotImplemented:
                 return r
+        if isinstance(node.func, ast.Attribute) and isinstance(node.func.value, ast.Name) and isinstance(st.env.get(node.func.value.id), Tup) \
+                and node.func.attr in ("append", "extend") and len(args) == 1 and not kw:
+            cur = st.env[node.func.value.id]
+            if node.func.attr == "append":
+                st.env[node.func.value.id] = Tup(cur.items + (args[0],))
+                return Const(None)
+            if isinstance(args[0], Tup):
+                st.env[node.func.value.id] = Tup(cur.items + args[0].items)
+                return Const(None)
+            st.env[node.func.value.id] = Unk("extend by a non-literal")
+            return Const(None)
+        # a local bound to a function of the module (a formatter passed as argument)
+        if isinstance(node.func, ast.Name) and isinstance(st.env.get(node.func.id), Opaque) and st.env[node.func.id].name.startswith("name:") \
+                and st.env[node.func.id].name[5:] in self.mod.funcs and not kw:
+            return CallS(st.env[node.func.id].name[5:], tuple(args))
         # methods of string values (receiver evaluated, not named)
         if isinstance(node.func, ast.Attribute):
             recv_known = isinstance(node.func.value, ast.Name) and node.func.value.id in st.env or not isinstance(node.func.value, ast.Name) \
@@ -624,6 +738,9 @@ class Engine:
             r = getattr(self, "b_" + name)(args, st)
             if r is not NotImplemented:
                 return r
+        r = self.regex_call(name, node, args, kw, st)
+        if r is not NotImplemented:
+            return r
         if name == "format" and len(args) == 2:
             toks = _tokens(args[1])
             return make_fmt(parse_spec(toks) if toks is not None else None, args[0])
@@ -640,6 +757,48 @@ class Engine:
                     args = full
             return CallS(name, tuple(args))
         return Opaque("call:" + (name or ast.unparse(node.func)), tuple(args) + tuple(Opaque("kw:" + k, (v,)) for k, v in sorted(kw.items())))
+
+    def regex_call(self, name, node, args, kw, st):
+        """re.compile / re.sub / re.match ... and the methods of a compiled pattern, on literal patterns and literal text (the standard
+        library's `re` is applied to the literals)"""
+        import re
+        flags = 0
+        if kw:
+            return NotImplemented
+
+        def lit(v):
+            return v.s if isinstance(v, Lit) else None
+        pat = None
+        meth = None
+        rest = None
+        if name in ("re.compile",) and args and lit(args[0]) is not None and len(args) == 1:
+            try:
+                return Const(re.compile(args[0].s))
+            except re.error:
+                return Unk("regular expression")
+        if name is not None and name.startswith("re.") and name[3:] in ("sub", "match", "search", "fullmatch") and args and lit(args[0]) is not None:
+            try:
+                pat = re.compile(args[0].s)
+            except re.error:
+                return Unk("regular expression")
+            meth, rest = name[3:], args[1:]
+        elif isinstance(node.func, ast.Attribute) and node.func.attr in ("sub", "match", "search", "fullmatch"):
+            recv = self._ev(node.func.value, st)
+            if isinstance(recv, Const) and isinstance(recv.value, re.Pattern):
+                pat, meth, rest = recv.value, node.func.attr, args
+        if pat is None:
+            return NotImplemented
+        if not all(lit(a) is not None for a in rest):
+            return Unk("regular expression on non-literal text")
+        try:
+            if meth == "sub" and len(rest) == 2:
+                return Lit(pat.sub(rest[0].s, rest[1].s))
+            if meth in ("match", "search", "fullmatch") and len(rest) == 1:
+                m = getattr(pat, meth)(rest[0].s)
+                return Const(None) if m is None else Const(m)
+        except re.error:
+            return Unk("regular expression")
+        return NotImplemented
 
     def str_method(self, recv, meth, args, kw, st):
         if isinstance(recv, Choice):
@@ -730,6 +889,8 @@ class Engine:
             try:
                 return Fraction(int(a[0].s))
             except ValueError:
+                if self.exceptions:
+                    raise Raised("ValueError")
                 return Unk("int of text")
         return IntOf(a[0])
 
@@ -739,6 +900,14 @@ class Engine:
         if is_num(a[0]) or isinstance(a[0], (Param, Neg, Abs, Round)):
             return a[0]
         if isinstance(a[0], Lit):
+            if self.exceptions:
+                try:
+                    f = float(a[0].s)
+                except ValueError:
+                    raise Raised("ValueError")
+                if f != f or f in (float("inf"), float("-inf")):
+                    return Unk("non-finite float")
+                return Fraction(f)
             try:
                 return Fraction(a[0].s.strip())
             except (ValueError, ZeroDivisionError):
